@@ -13,8 +13,18 @@ OUTSIDE = "specifications not in the corpus (the nesting clause is checked as wi
 ASSUMPTIONS = ["faults are exceptions raised by public add_*/get_*/next_chunk methods of a reader/writer subclass"]
 
 
+import os
+ALL = bool(os.environ.get("VERIF_C15_ALL"))     # validation run over the entire pair corpus (hours)
+
+
+def _n(tier, quick, thorough):
+    if tier == "quick":
+        return quick
+    return None if ALL else thorough
+
+
 def trees(tier):
-    return [("core", corpus.CORE), ("pairs", corpus.pairs(tier, corpus.seed(), 70 if tier == "quick" else 1000, False)[0]), ("pairs2", corpus.pairs(tier, corpus.seed(), 160 if tier == "quick" else 1500)[0])]
+    return [("core", corpus.CORE), ("pairs", corpus.pairs(tier, corpus.seed(), _n(tier, 70, 1000), False)[0]), ("pairs2", corpus.pairs(tier, corpus.seed(), _n(tier, 160, 1500))[0])]
 
 
 def programs(tier):
@@ -45,7 +55,7 @@ def jobs(tier):
             if i[0] == "switch" and any(nests(c[3]) for c in i[2]):
                 return True
         return False
-    _, atypes, acls = corpus.pairs(tier, corpus.seed(), 160 if tier == "quick" else 1500)          # the nesting clause uses a larger pair sample
+    _, atypes, acls = corpus.pairs(tier, corpus.seed(), _n(tier, 160, 1500))          # the nesting clause uses a larger pair sample
     for src, tname, tt, cc in [("", "core", types, cls), ("pairs:", "pairs2", atypes, acls)]:
         for c in cc:
             if not nests(c["instrs"]):
@@ -56,7 +66,7 @@ def jobs(tier):
             for n in ((2, 3) if q else (1, 2, 3, 4)):
                 js.append(dict(name=f"nested_read[{src}{c['name']},n={n}]", fn="nested_read", args=[t, c, n, 6], tree=tname, collect_models=1,
                                expect=["reader mode restored"]))
-    _, ptypes, pcls = corpus.pairs(tier, corpus.seed(), 70 if tier == "quick" else 1000, False)
+    _, ptypes, pcls = corpus.pairs(tier, corpus.seed(), _n(tier, 70, 1000), False)
     pcfg = {"lens": [0, 1], "counts": [0, 1]}
     for c in pcls:
         t = corpus.closure(ptypes, c["instrs"])
